@@ -471,7 +471,8 @@ def coqchk_props(ctx, pid):
 
 # ----------------------------------------------------------------------------- translator paths2coq (C08, C14)
 PATHS_FUNCS = ["util.analyse_paths", "util._strip_path_tail", "util.path_string", "util._val_to_num",
-               "writer.partition_on_columns (directory naming)", "api.paths_to_cats", "api._path_to_cats"]
+               "writer.partition_on_columns (directory naming)", "api.paths_to_cats", "api._path_to_cats",
+               "util.val_from_meta (bool literals)", "util.metadata_from_many (fast-path relative path)"]
 
 
 def paths_translator(ctx):
